@@ -317,8 +317,8 @@ Definition block_extent (c : ctl) (opn cls : ascii) (iter : bool) : res (nat * b
   | gs =>
       let i := match gs with
                | ScanAt p =>
-                   (* dirIter: c.pos = pos + 2 ; if c.pos < len(c.str) && c.str[c.pos] == '}' { c.pos++ ; atLeastOnce = true } *)
-                   if iter && Nat.ltb (p + 2) (List.length (c_str c)) && ascii_eqb (ch_at (c_str c) (p + 2)) cls
+                   (* dirIter: c.pos = pos + 2 ; if c.str[pos+1] == ':' { c.pos++ ; atLeastOnce = true } *)
+                   if iter && ascii_eqb (ch_at (c_str c) (p + 1)) ":"
                    then Some (p, true, p + 3) else Some (p, false, p + 2)
                | _ => None
                end in
